@@ -214,7 +214,7 @@ def run(ck):
 
     def one(kc):
         k, c = kc
-        p = os.path.join(tlc.SPEC, "mc", "_opt_%d.cfg" % k)
+        p = os.path.join(tlc.SPEC, "mc", "_opt_%d_%d.cfg" % (k, os.getpid()))       # (private to this process)
         optcfgs.write_cfg(p, **c)
         r = tlc.run("mc/MC_Opt", cfg=p, workers=2, heap="2g", timeout=3000)
         os.remove(p)
@@ -227,7 +227,7 @@ def run(ck):
             if r.invariant_violated or r.property_violated or r.error or r.rc != 0:
                 ck.machinery_error("MC_Opt %s: %s %s\n%s" % (c, r.invariant_violated, r.error, r.out[-1200:]))
     # vacuity guard: the model of the pinned lexicographic wrapper (no clean-up on success) must leak a level
-    p = os.path.join(tlc.SPEC, "mc", "_opt_unfixed.cfg")
+    p = os.path.join(tlc.SPEC, "mc", "_opt_unfixed_%d.cfg" % os.getpid())
     optcfgs.write_cfg(p, vals="ValsU2", nm=3, kind="ubv", width=2, goal="min", strategy="linear", mode="lex", cleanup=False)
     ru = tlc.run("mc/MC_Opt", cfg=p, timeout=3000)
     os.remove(p)
